@@ -78,52 +78,80 @@ def run(ctx):
     ok = "inv" in pairs and "fwd" in pairs and pairs["inv"] == list(reversed(pairs["fwd"])) and len(pairs["fwd"]) == 2 and pairs["fwd"][0] != pairs["fwd"][1]
     ctx.check(ok, "SIB-inv", f"interp1d{tuple(pairs.get('fwd', ()))} / interp1d{tuple(pairs.get('inv', ()))}", func=ti, construct="inverse-swap",
               msg=f"the inverse interpolator must be built from the same two arrays swapped (found {pairs})")
-    # ---- INTEGRAND
+    # ---- INTEGRAND  (locals are identified by role, not by name)
     ctx.rule("INTEGRAND", "y = r_[0, cumsum(col2[:-1] * diff(col0) / col1[:-1])]; col1 <- quarter table, col2 <- beat_type/4 "
                           "(x musical_beats/beats in musical-beat mode), defaults 1 and 1, carried forward between change points")
     cs = [n for n in own_nodes(ti.node) if isinstance(n, ast.Call) and norm(n.func) in ("np.cumsum", "numpy.cumsum")]
     ok = False
+    arr = None
     if len(cs) == 1 and cs[0].args:
         e = cs[0].args[0]
-        if isinstance(e, ast.BinOp) and isinstance(e.op, ast.Div) and norm(e.right) == "keypoints[:-1, 1]" and isinstance(e.left, ast.BinOp) \
-                and isinstance(e.left.op, ast.Mult):
-            ok = {norm(e.left.left), norm(e.left.right)} == {"keypoints[:-1, 2]", "np.diff(keypoints[:, 0])"}
+        if isinstance(e, ast.BinOp) and isinstance(e.op, ast.Div) and isinstance(e.right, ast.Subscript) and isinstance(e.right.value, ast.Name) \
+                and isinstance(e.left, ast.BinOp) and isinstance(e.left.op, ast.Mult):
+            arr = e.right.value.id
+            ok = norm(e.right) == f"{arr}[:-1, 1]" and {norm(e.left.left), norm(e.left.right)} == {f"{arr}[:-1, 2]", f"np.diff({arr}[:, 0])"}
     ctx.check(ok, "INTEGRAND", "cumsum(beat_factor * dt / divisions)", func=ti, node=cs[0] if cs else None, construct="integrand",
-              msg="the time maps must integrate keypoints[:-1, 2] * np.diff(keypoints[:, 0]) / keypoints[:-1, 1] (beat factor x divisions elapsed / "
+              msg="the time maps must integrate K[:-1, 2] * np.diff(K[:, 0]) / K[:-1, 1] over the key-point table K (beat factor x divisions elapsed / "
                   "quarter duration)")
     stores = {}
     for n in own_nodes(ti.node):
         if isinstance(n, ast.Assign) and isinstance(n.targets[0], ast.Subscript) and isinstance(n.targets[0].value, ast.Subscript) \
-                and norm(n.targets[0].value.value) == "keypoints" and isinstance(n.targets[0].slice, ast.Constant):
+                and isinstance(n.targets[0].value.value, ast.Name) and isinstance(n.targets[0].slice, ast.Constant) and n.targets[0].slice.value in (0, 1):
             guard = None
             p = getattr(n, "_parent", None)
             if isinstance(p, ast.If) and norm(p.test) == "musical_beat":
-                guard = any(n is s for s in p.body)
-            stores.setdefault(n.targets[0].slice.value, []).append((guard, n.value, norm(n.targets[0].value.slice)))
+                guard = any(n is s_ for s_ in p.body)
+            loop = p
+            while loop is not None and not isinstance(loop, ast.For):
+                loop = getattr(loop, "_parent", None)
+            stores.setdefault(n.targets[0].slice.value, []).append((guard, n.value, n.targets[0].value.slice, loop))
     c0 = stores.get(0, [])
-    ok0 = len(c0) == 1 and norm(c0[0][1]) == "q" and c0[0][2] == "t" and any(
-        isinstance(l, ast.For) and norm(l.iter) == "zip(self._quarter_times, self._quarter_durations)" and norm(l.target) == "(t, q)" for l in own_nodes(ti.node))
+    ok0 = False
+    if len(c0) == 1 and c0[0][3] is not None:
+        g, val, key, loop = c0[0]
+        ok0 = norm(loop.iter) == "zip(self._quarter_times, self._quarter_durations)" and isinstance(loop.target, ast.Tuple) and len(loop.target.elts) == 2 \
+            and norm(key) == norm(loop.target.elts[0]) and norm(val) == norm(loop.target.elts[1])
     ctx.check(ok0, "INTEGRAND", "column 1 <- quarter table", func=ti, construct="integrand:divisions",
               msg="column 1 of the key points must be the quarter duration set at each time of the quarter table")
     c1 = stores.get(1, [])
-    plain = [v for g, v, k in c1 if g is False]
-    musical = [v for g, v, k in c1 if g is True]
-    okp = len(plain) == 1 and norm(plain[0]) == "ts.beat_type / 4"
-    okm = len(musical) == 1 and isinstance(musical[0], ast.BinOp) and isinstance(musical[0].op, ast.Mult) and \
-        {norm(musical[0].left), norm(musical[0].right)} == {"ts.beat_type / 4", "ts.musical_beats / ts.beats"}
-    ctx.check(okp and okm and all(k == "ts.start.t" for _, _, k in c1), "INTEGRAND", "column 2 <- beat_type/4 (x musical_beats/beats)", func=ti,
+    okc1 = False
+    if len(c1) == 2 and all(l is not None and "iter_all(TimeSignature)" in norm(l.iter) for _, _, _, l in c1):
+        tsv = norm(c1[0][3].target)
+        plain = [v for g, v, k, l in c1 if g is False]
+        musical = [v for g, v, k, l in c1 if g is True]
+        okp = len(plain) == 1 and norm(plain[0]) == f"{tsv}.beat_type / 4"
+        okm = len(musical) == 1 and isinstance(musical[0], ast.BinOp) and isinstance(musical[0].op, ast.Mult) and \
+            {norm(musical[0].left), norm(musical[0].right)} == {f"{tsv}.beat_type / 4", f"{tsv}.musical_beats / {tsv}.beats"}
+        okc1 = okp and okm and all(norm(k) == f"{tsv}.start.t" for _, _, k, _ in c1)
+    ctx.check(okc1, "INTEGRAND", "column 2 <- beat_type/4 (x musical_beats/beats)", func=ti,
               construct="integrand:beat-factor",
               msg="column 2 of the key points must be ts.beat_type / 4, times ts.musical_beats / ts.beats in musical-beat mode, at ts.start.t")
     # ---- PICKUP
-    ctx.rule("PICKUP", "zero lies at the start of the first full measure: `if actual_dur < normal_dur: y -= actual_dur`, with normal_dur = "
+    ctx.rule("PICKUP", "zero lies at the start of the first full measure: `if actual < normal: y -= actual`, with normal = "
                        "ts.beats, x 4/beat_type for quarters, = ts.musical_beats for musical beats")
-    shift = [n for n in own_nodes(ti.node) if isinstance(n, ast.AugAssign) and norm(n.target) == "y" and isinstance(n.op, ast.Sub) and norm(n.value) == "actual_dur"]
-    ok = len(shift) == 1 and isinstance(getattr(shift[0], "_parent", None), ast.If) and norm(shift[0]._parent.test) in ("actual_dur < normal_dur", "normal_dur > actual_dur")
+    shift = [n for n in own_nodes(ti.node) if isinstance(n, ast.AugAssign) and isinstance(n.target, ast.Name) and isinstance(n.op, ast.Sub) and isinstance(n.value, ast.Name)
+             and isinstance(getattr(n, "_parent", None), ast.If)]
+    ok = False
+    nd_name = ad_name = None
+    if len(shift) == 1:
+        t = shift[0]._parent.test
+        ad_name = shift[0].value.id
+        if isinstance(t, ast.Compare) and len(t.ops) == 1 and isinstance(t.left, ast.Name) and isinstance(t.comparators[0], ast.Name):
+            if isinstance(t.ops[0], ast.Lt) and t.left.id == ad_name:
+                nd_name, ok = t.comparators[0].id, True
+            elif isinstance(t.ops[0], ast.Gt) and t.comparators[0].id == ad_name:
+                nd_name, ok = t.left.id, True
     ctx.check(ok, "PICKUP", "origin shifted by the pickup length", func=ti, construct="pickup-shift",
               msg="the origin must be moved by the actual duration of a first measure that is shorter than its time signature")
-    nd = [norm(n) for n in own_nodes(ti.node) if isinstance(n, (ast.Assign, ast.AugAssign)) and norm(n.targets[0] if isinstance(n, ast.Assign) else n.target) == "normal_dur"]
-    ctx.check(set(nd) == {"normal_dur = ts.beats", "normal_dur *= 4 / ts.beat_type", "normal_dur = ts.musical_beats"}, "PICKUP", "normal duration in the map's unit",
-              func=ti, construct="pickup-normal-duration", msg=f"normal_dur definitions: {nd}")
+    import re as _re
+    nd = []
+    for n in own_nodes(ti.node):
+        if isinstance(n, ast.Assign) and nd_name and norm(n.targets[0]) == nd_name:
+            nd.append("= " + _re.sub(r"\b\w+\.", ".", norm(n.value)))
+        elif isinstance(n, ast.AugAssign) and nd_name and norm(n.target) == nd_name and isinstance(n.op, ast.Mult):
+            nd.append("*= " + _re.sub(r"\b\w+\.", ".", norm(n.value)))
+    ctx.check(set(nd) == {"= .beats", "*= 4 / .beat_type", "= .musical_beats"}, "PICKUP", "normal duration in the map's unit",
+              func=ti, construct="pickup-normal-duration", msg=f"definitions of the normal first-measure duration: {nd}")
     X.rule_pickup_source(ctx)
     # ---- READSET
     ctx.rule("READSET", "the interpolator reads the quarter table, the time signatures, first_point, last_point and the first measure")
@@ -159,9 +187,12 @@ def run(ctx):
     ctx.touch(qd)
     c = [n for n in own_nodes(qd.node) if isinstance(n, ast.Call) and norm(n.func) == "interp1d"]
     kw = _kwargs(c[0]) if c else {}
-    ok = len(c) == 1 and kw.get("kind") == "'previous'" and kw.get("fill_value") == "(y[0], y[-1])" and [norm(a) for a in c[0].args] == ["x", "y"]
-    src = {norm(n) for n in own_nodes(qd.node) if isinstance(n, ast.Assign)}
-    ok = ok and "x = self._quarter_times" in src and "y = self._quarter_durations" in src
+    ok = False
+    if len(c) == 1 and len(c[0].args) == 2 and all(isinstance(a, ast.Name) for a in c[0].args):
+        xa, ya = c[0].args[0].id, c[0].args[1].id
+        src = {norm(n) for n in own_nodes(qd.node) if isinstance(n, ast.Assign)}
+        ok = kw.get("kind") == "'previous'" and kw.get("fill_value") == f"({ya}[0], {ya}[-1])" \
+            and f"{xa} = self._quarter_times" in src and f"{ya} = self._quarter_durations" in src
     ctx.check(ok, "QDMAP", "previous-value interpolation clamped at both ends", func=qd, construct="quarter-duration-map",
               msg="the quarter-duration map must return the divisions of the latest change at or before t (first value before it, last after)")
     fs = [ti, qd] + [prog.func(f"{P}.{m}") for m in ("beat_map", "inv_beat_map", "quarter_map", "inv_quarter_map", "use_musical_beat", "use_notated_beat", "set_musical_beat_per_ts")]
